@@ -383,7 +383,7 @@ def main():
                     samples.extend(sm['samples'][:1])
             for v in s.viols:
                 violations.append((fl, v))
-            nondet.extend(s.nondet)
+            nondet.extend(dict(x, _flavour=fl) for x in s.nondet)
             for c in s.crashes:
                 c['flavour'] = fl
                 crashes.append(c)
@@ -437,6 +437,32 @@ def main():
                        'reproduce': 'make -C sim FLAVOUR=%s REPO=%s' % (n['flavour'], REPO)}, f, indent=1)
         violations.append((n['flavour'], {'property': 'C14', 'class': 'move_only_does_not_compile',
                                           'detail': 'move-only value type does not compile: ' + '; '.join(n['errors'][:2]), 'replay': path, 'plan': None, 'pre_gated': True}))
+
+    # A violation that does not repeat when its plan is run again INSIDE the warm worker process may be an effect of the
+    # first such call in a process (a warn-once flag, a lazily filled table): the fresh-process replay decides. It counts
+    # only if two fresh processes both reproduce it; otherwise it stays a harness problem (exit 2), never a verdict.
+    first_call_done = {}
+    still_nondet = []
+    for nd in nondet:
+        cls = nd.get('class', '?')
+        if first_call_done.get(cls, 0) >= 3 or not nd.get('plan'):
+            still_nondet.append(nd)
+            continue
+        first_call_done[cls] = first_call_done.get(cls, 0) + 1
+        fl = nd.get('_flavour', 'plain')
+        path = os.path.join(outdir, 'replay_%s_%s_first_call_%s_%s.json' % (prop, cls, nd.get('seed'), nd.get('index')))
+        with open(path, 'w') as f:
+            json.dump({'property': prop, 'class': cls, 'detail': nd.get('detail', ''), 'seed': nd.get('seed'), 'index': nd.get('index'), 'flavour': fl,
+                       'plan': nd['plan'], 'note': 'did not repeat inside the warm worker process; reproduces in a fresh process (first-call effect)'}, f)
+        r1 = replay(fl, path)
+        r2 = replay(fl, path) if r1[0] == 1 else (0, '', '')
+        if r1[0] == 1 and r2[0] == 1:
+            violations.append((fl, {'property': prop, 'class': cls, 'detail': '[an effect of the FIRST such call in a process: reproduced by two fresh-process replays, not by re-execution in the warm worker] ' + nd.get('detail', ''),
+                                    'replay': path, 'plan': nd['plan'], 'pre_gated': True}))
+        else:
+            still_nondet.append(nd)
+    confirmed_first_call = set(v['class'] for _, v in violations if v.get('detail', '').startswith('[an effect of the FIRST such call'))
+    nondet = [x for x in nondet if x.get('class', '?') not in confirmed_first_call]
 
     seen_classes = {}
     gated_per_class = {}
